@@ -50,7 +50,7 @@ class Findings(object):
 
 def entry_lists(data, thorough, rnd):
     subs = data["subpackages"]
-    quick = [[m] for m in subs] + [["lena"], list(subs)]
+    quick = [[m] for m in subs] + [["lena"], list(subs), [subs[0], subs[0]]]
     if not thorough:
         return quick
     pairs = [[a, b] for a in subs for b in subs if a != b]
